@@ -64,6 +64,9 @@ pub assume_specification[ <std::ffi::OsString as std::ops::Deref>::deref ](s: &s
     ensures r == crate::vfs::os_ref(s);
 pub assume_specification[ std::ffi::OsStr::to_str ](s: &std::ffi::OsStr) -> (r: Option<&str>)
     ensures match r { Some(t) => crate::vfs::os_utf8(s) == Some(t@), None => crate::vfs::os_utf8(s) is None };
+/// `&PathBuf` used as `&Path` (Deref): the same path
+pub assume_specification[ <std::path::PathBuf as std::ops::Deref>::deref ](pb: &std::path::PathBuf) -> (r: &std::path::Path)
+    ensures crate::vfs::path_buf_of(r) == *pb;
 pub assume_specification[ std::path::Path::to_path_buf ](p: &std::path::Path) -> (r: std::path::PathBuf)
     ensures r == crate::vfs::path_buf_of(p);
 
@@ -93,6 +96,12 @@ pub assume_specification<T, E, F: FnOnce(E) -> T>[ Result::<T, E>::unwrap_or_els
     ensures
         r is Ok ==> t == r->Ok_0,
         r is Err ==> op.ensures((r->Err_0,), t),
+;
+
+/// `Result::unwrap_or`: the value, or the default
+pub assume_specification<T, E>[ Result::<T, E>::unwrap_or ](r: Result<T, E>, default: T) -> (t: T)
+    ensures
+        t == (match r { Ok(v) => v, Err(_) => default }),
 ;
 
 pub assume_specification<T>[ core::convert::identity::<T> ](x: T) -> (r: T)
